@@ -7,7 +7,7 @@ D="$(mktemp -d /tmp/vgi-mut-main-XXXXXX)"
 cp -r /repo/vgi_rpc "$D/vgi_rpc"
 if ! (cd "$D" && patch -s -p1 < "$DIFF"); then echo "MUTANT-ERROR patch failed: $DIFF"; rm -rf "$D"; exit 3; fi
 cd "$(dirname "$0")/.." || exit 3
-VERIF_REPO="$D" VERIF_SHRINK_S="${VERIF_SHRINK_S:-10}" ./check "$ID" "$@" > "$D/out.log" 2>&1
+VERIF_NO_EVIDENCE=1 VERIF_REPO="$D" VERIF_SHRINK_S="${VERIF_SHRINK_S:-10}" ./check "$ID" "$@" > "$D/out.log" 2>&1
 rc=$?
 grep -E "^VIOLATION|key=|HARNESS" "$D/out.log" | head -6
 tail -1 "$D/out.log"
